@@ -235,7 +235,11 @@ class C02(Spec):
                 t = rng.randrange(NT); r = rng.random(); n = len(g.bound[t])
                 pool = pools[g.kind[t]]
                 if r < 0.40: g.churn(t, pool, rng.randrange(1, 25), rng.choice([0, 3, 10, 30]))
-                elif r < 0.48: g.resize(t, 0)
+                elif r < 0.48:
+                    g.resize(t, 0)                                   # nslots = 0: every operation must still work (F03 territory)
+                    for _ in range(rng.randrange(0, 5)):
+                        k = rng.choice(pool)
+                        g.emit(rng.choice([f'get {t} {k}', f'mem {t} {k}', f'rem {t} {k}', f'iter {t}', f'riter {t}', f'len {t}', f'resize {t} 0', f'check {t}']))
                 elif r < 0.58: g.resize(t, n + rng.choice([0, 0, 1, 5, 40, 300]))          # reserve (or exactly len)
                 elif r < 0.64 and n > 0: g.resize(t, rng.randrange(1, n + 1) if n > 1 else 1)   # below len: FormatError (== len is allowed)
                 elif r < 0.78:
